@@ -3,7 +3,7 @@ import Zc.Model.QueryGen
 
 `c13svc now qu <cache: n rec…> <hist: n (question at <n rec…>)…> <types: n hex…>`   generate_service_query
 `c13req now qu <cache> <hist> nameHex serverHex`                                     _generate_request_query
-`c13hear now <hist> question <known: n rec…>`                                        responder records a question
+`c13hear canAnswer now <hist> question <known: n rec…>`                                       responder records a question
 `c13grp <n> (size id)…`                                                              bucket grouping
 `c13loop forced now timeout <draws: n d…>`                                           request loop on its own wake-ups
 `c13iter first delay next last forced now draw`                                      one loop iteration
@@ -19,19 +19,19 @@ def commas (s : String) : String := s.map (fun c => if c = ' ' then ',' else c)
 
 def recStr (r : Rec) : String := commas r.toLine
 
-def knownStr (now : Int) (l : List Rec) : String :=
-  let items := sortStr (l.filterMap (fun r => (wireAnswer now r).map (fun p => s!"{recStr p.1}:{p.2}")))
+def wireStr (l : List (Rec × Nat)) : String :=
+  let items := sortStr (l.map (fun p => s!"{recStr p.1}:{p.2}"))
   if items.isEmpty then "-" else ";".intercalate items
 
-def qoutStr (now : Int) (o : QOut) : String := s!"q={commas o.q.toLine} k={knownStr now o.known}"
+def qoutStr (o : QOut) : String := s!"q={commas o.q.toLine} k={wireStr o.wire}"
 
 def histStr (h : History) : String :=
   let items := sortStr (h.map (fun e =>
     s!"{hexOfStr (asciiLower e.q.name)},{e.q.type},{e.q.class_}@{e.time}:[{";".intercalate (sortStr (e.known.map recStr))}]"))
   if items.isEmpty then "-" else " ".intercalate items
 
-def resStr (now : Int) (r : List QOut × History) : String :=
-  let qs := sortStr (r.1.map (qoutStr now))
+def resStr (_now : Int) (r : List QOut × History) : String :=
+  let qs := sortStr (r.1.map qoutStr)
   s!"{if qs.isEmpty then "-" else " | ".intercalate qs} || {histStr r.2}"
 
 def parseHEntry : Tok HEntry := do
@@ -64,17 +64,23 @@ def c13req : Tok String := do
   pure (resStr now (requestQuery asciiLower cache hist now qu name server))
 
 def c13hear : Tok String := do
+  let can ← Tok.bool
   let now ← Tok.int
   let hist ← Tok.list parseHEntry
   let q ← Question.parse
   let known ← Tok.list Rec.parse
-  pure (histStr (responderHears asciiLower hist q now known))
+  pure (histStr (responderHears asciiLower can hist q now known))
 
 def c13grp : Tok String := do
   let items ← Tok.list (do let s ← Tok.nat; let i ← Tok.nat; pure (s, i))
   let dummy : Question := { name := "", type := 0, class_ := 0, unique := false }
-  let bs := group maxBucketSize (items.map (fun (s, i) => (s, ({ q := { dummy with type := i }, known := [] } : QOut))))
+  let bs := group maxBucketSize (items.map (fun (s, i) => (s, ({ q := { dummy with type := i }, known := [], wire := [] } : QOut))))
   pure ("|".intercalate (bs.map (fun b => ",".intercalate (b.items.map (fun it => toString it.2.q.type)))))
+
+def c13expire : Tok String := do
+  let now ← Tok.int
+  let hist ← Tok.list parseHEntry
+  pure (histStr (History.cleanupTick hist now))
 
 def iterStr : Iter → String
   | .timeout => "timeout"
@@ -106,6 +112,7 @@ def dispatch (cmd : String) (rest : List String) : Option String :=
   | "c13req" => some (run c13req rest)
   | "c13hear" => some (run c13hear rest)
   | "c13grp" => some (run c13grp rest)
+  | "c13expire" => some (run c13expire rest)
   | "c13loop" => some (run c13loop rest)
   | "c13iter" => some (run c13iter rest)
   | "c13init" => some (run c13init rest)
